@@ -886,7 +886,7 @@ pub(crate) fn run(replay: Option<&str>) -> Report {
         return rep;
     }
     let thorough = rep.thorough();
-    let depth = if thorough { 12 } else { 5 };
+    let depth = if thorough { 12 } else { 6 };
     rep.rule = format!("(i) explicit-state BFS depth {depth} over connect(passive|active, static|in-dynamic-prefix|other address) / disconnect / enable / disable / delete against the real accept_connection + session tasks on loopback (4 configurations: static only with prefix limit; admin-down static + route-server dynamic group with GR and hold time; overlapping dynamic prefixes + RR client group + confederation; iBGP static neighbour + RR-client group inside a confederation whose member list names the local member AS); admission verdict, no bytes before refusal, role / hold time / local AS / capabilities / limits of the session as seen in its OPEN, Global.peers and connection slots after every step; (ii) all pairs of capability lists from a {} -element menu (per-family absent / MP / add-path modes incl. invalid 4, conflicting duplicate add-path entries, three capability orders incl. ADD-PATH before MP and repeated MP, AS4, extended message, GR flag/family lists, LLGR lists, unknown capability) through encode->decode and PeerCodec::negotiate in both directions, PeerFsm effective send-max, PeerSession::negotiate_gr/llgr (codec/FSM lists and GR/LLGR lists as two independent complete products); non-trivial = distinct canonical state / distinct pair", sides(thorough).len() + gr_sides(thorough).len());
     for m in &ms {
         let cfg = BfsCfg { max_depth: depth, max_secs: if thorough { 1200 } else { 20 }, ..Default::default() };
